@@ -885,10 +885,27 @@ theorem sweepEvict_none {s : State} {id : Nat} (hg : s.adm.kw.get? id = none) : 
 
 theorem sweepEvict_some {s : State} {id : Nat} {wk : WKey} (hg : s.adm.kw.get? id = some wk) :
     sweepEvict s id =
-      (applyEvict { s with adm := { s.adm with kw := s.adm.kw.del id, used := s.adm.used - wk.weight } }
+      (applyEvictId { s with adm := { s.adm with kw := s.adm.kw.del id, used := s.adm.used - wk.weight } }
         (id, wk.key, wk.weight), some (id, wk.key, wk.weight)) := by
   unfold sweepEvict
   rw [Adm.delete_some hg]
+
+/-- Under `HeldW` (part of `TtlInv`) the key a charged id is charged for is either not stored or stored under this
+    very id, so the ticker's id check (`applyEvictId`) never makes a difference in Layer A. -/
+theorem applyEvictId_held {s : State} {id : Nat} {wk : WKey} (hw : HeldW s.adm.kw s.store)
+    (hg : s.adm.kw.get? id = some wk) :
+    applyEvictId { s with adm := { s.adm with kw := s.adm.kw.del id, used := s.adm.used - wk.weight } }
+        (id, wk.key, wk.weight) =
+      applyEvict { s with adm := { s.adm with kw := s.adm.kw.del id, used := s.adm.used - wk.weight } }
+        (id, wk.key, wk.weight) :=
+  applyEvictId_eq_applyEvict_of (fun en hen => hw.2 id wk en hg hen)
+
+theorem sweepEvict_some_held {s : State} {id : Nat} {wk : WKey} (hw : HeldW s.adm.kw s.store)
+    (hg : s.adm.kw.get? id = some wk) :
+    sweepEvict s id =
+      (applyEvict { s with adm := { s.adm with kw := s.adm.kw.del id, used := s.adm.used - wk.weight } }
+        (id, wk.key, wk.weight), some (id, wk.key, wk.weight)) := by
+  rw [sweepEvict_some hg, applyEvictId_held hw hg]
 
 theorem pendingIds_congr {s s' : State} (h1 : s'.queue = s.queue) (h2 : s'.pend = s.pend) :
     pendingIds s' = pendingIds s := by
@@ -898,7 +915,7 @@ theorem ttlinv_sweepEvict {s : State} (t : TtlInv s) (id : Nat) : TtlInv (sweepE
   cases hg : s.adm.kw.get? id with
   | none => rw [sweepEvict_none hg]; exact t
   | some wk =>
-    rw [sweepEvict_some hg]
+    rw [sweepEvict_some_held t.heldW hg]
     obtain ⟨e1, e2, e3, e4, e5, e6, e7, e8, _⟩ := applyEvict_frame
       { s with adm := { s.adm with kw := s.adm.kw.del id, used := s.adm.used - wk.weight } } (id, wk.key, wk.weight)
     refine t.uncharge hg (by rw [e1]) (by rw [applyEvict_store]) e8 e3 e2 (pendingIds_congr e5 e6)
@@ -914,10 +931,13 @@ theorem ttlinv_sweepEntries : ∀ (l : List ((Nat × Nat) × Nat)) (s : State) (
     simp only [sweepEntries]
     exact ih _ _ (ttlinv_sweepEvict t id)
 
-/-- What `sweepEntries` does for a list `l` of index entries: exactly the charged ids of `l` are evicted. -/
+/-- What `sweepEntries` does for a list `l` of index entries: exactly the charged ids of `l` are evicted.
+    The keys of the evictions leave the store under `HeldW` (part of `TtlInv`, so at every reachable state); without
+    it the ticker's id check (`applyEvictId`) may keep some of them (`storeSub`). -/
 structure SweepSpec (s : State) (l : List ((Nat × Nat) × Nat)) (s' : State) (evNew : List Evicted) : Prop where
   kw : ∀ i, s'.adm.kw.get? i = if i ∈ l.map (·.1.2) then none else s.adm.kw.get? i
-  store : s'.store = AMap.delKeys s.store (evNew.map (·.2.1))
+  store : HeldW s.adm.kw s.store → s'.store = AMap.delKeys s.store (evNew.map (·.2.1))
+  storeSub : ∃ ks, (∀ k ∈ ks, k ∈ evNew.map (·.2.1)) ∧ s'.store = AMap.delKeys s.store ks
   used : s'.adm.used = s.adm.used - (evNew.map (·.2.2)).sum
   max : s'.adm.max = s.adm.max
   evNodup : (evNew.map (·.1)).Nodup
@@ -938,8 +958,8 @@ theorem sweepEntries_spec : ∀ (l : List ((Nat × Nat) × Nat)) (s : State) (ac
   | nil =>
     intro s acc
     refine ⟨[], by simp [sweepEntries], ?_⟩
-    exact ⟨by intro i; simp [sweepEntries], rfl, by simp [sweepEntries], rfl, by simp, by simp, by simp,
-      rfl, rfl, rfl, rfl, rfl, rfl, rfl⟩
+    exact ⟨by intro i; simp [sweepEntries], fun _ => rfl, ⟨[], by simp, rfl⟩, by simp [sweepEntries], rfl, by simp,
+      by simp, by simp, rfl, rfl, rfl, rfl, rfl, rfl, rfl⟩
   | cons p rest ih =>
     intro s acc
     obtain ⟨⟨sh, id⟩, ex⟩ := p
@@ -949,7 +969,7 @@ theorem sweepEntries_spec : ∀ (l : List ((Nat × Nat) × Nat)) (s : State) (ac
       rw [sweepEvict_none hg]
       obtain ⟨evNew, he, sp⟩ := ih s acc
       refine ⟨evNew, he, ?_⟩
-      refine ⟨?_, sp.store, sp.used, sp.max, sp.evNodup, ?_, ?_, sp.ttl, sp.now, sp.cfg, sp.nextId, sp.worker,
+      refine ⟨?_, sp.store, sp.storeSub, sp.used, sp.max, sp.evNodup, ?_, ?_, sp.ttl, sp.now, sp.cfg, sp.nextId, sp.worker,
         sp.queue, sp.pend⟩
       · intro i
         rw [sp.kw i]
@@ -969,15 +989,17 @@ theorem sweepEntries_spec : ∀ (l : List ((Nat × Nat) × Nat)) (s : State) (ac
         · exact sp.evAll i hi wk' hw
     | some wk =>
       rw [sweepEvict_some hg]
-      obtain ⟨e1, e2, e3, e4, e5, e6, e7, e8, _⟩ := applyEvict_frame
+      obtain ⟨e1, e2, e3, e4, e5, e6, e7, e8, _⟩ := applyEvictId_frame
         { s with adm := { s.adm with kw := s.adm.kw.del id, used := s.adm.used - wk.weight } } (id, wk.key, wk.weight)
       have e0 := applyEvict_store
         { s with adm := { s.adm with kw := s.adm.kw.del id, used := s.adm.used - wk.weight } } (id, wk.key, wk.weight)
-      obtain ⟨evNew, he, sp⟩ := ih (applyEvict
+      have e0' := applyEvictId_store_cases
+        { s with adm := { s.adm with kw := s.adm.kw.del id, used := s.adm.used - wk.weight } } (id, wk.key, wk.weight)
+      obtain ⟨evNew, he, sp⟩ := ih (applyEvictId
         { s with adm := { s.adm with kw := s.adm.kw.del id, used := s.adm.used - wk.weight } } (id, wk.key, wk.weight))
         ((id, wk.key, wk.weight) :: acc)
       refine ⟨(id, wk.key, wk.weight) :: evNew, by rw [he]; simp, ?_⟩
-      have hkw1 : ∀ i, (applyEvict
+      have hkw1 : ∀ i, (applyEvictId
           { s with adm := { s.adm with kw := s.adm.kw.del id, used := s.adm.used - wk.weight } }
           (id, wk.key, wk.weight)).adm.kw.get? i = if id = i then none else s.adm.kw.get? i := by
         intro i; rw [e1]; exact AMap.get?_del _ _ _
@@ -986,7 +1008,7 @@ theorem sweepEntries_spec : ∀ (l : List ((Nat × Nat) × Nat)) (s : State) (ac
         obtain ⟨_, hh, hget⟩ := sp.evIn e hm
         rw [hkw1, heq] at hget
         simp at hget
-      refine ⟨?_, ?_, ?_, ?_, ?_, ?_, ?_, sp.ttl.trans e8, sp.now.trans e7, sp.cfg.trans e3, sp.nextId.trans e2,
+      refine ⟨?_, ?_, ?_, ?_, ?_, ?_, ?_, ?_, sp.ttl.trans e8, sp.now.trans e7, sp.cfg.trans e3, sp.nextId.trans e2,
         sp.worker.trans e4, sp.queue.trans e5, sp.pend.trans e6⟩
       · intro i
         rw [sp.kw i, hkw1 i]
@@ -997,7 +1019,26 @@ theorem sweepEntries_spec : ∀ (l : List ((Nat × Nat) × Nat)) (s : State) (ac
           · subst h2; simp
           · have h3 : ¬ id = i := fun h => h2 h.symm
             simp [h1, h2, h3]
-      · rw [sp.store, e0]; rfl
+      · intro hw
+        have hev := applyEvictId_held hw hg
+        have hw1 : HeldW (applyEvictId
+            { s with adm := { s.adm with kw := s.adm.kw.del id, used := s.adm.used - wk.weight } }
+            (id, wk.key, wk.weight)).adm.kw (applyEvictId
+            { s with adm := { s.adm with kw := s.adm.kw.del id, used := s.adm.used - wk.weight } }
+            (id, wk.key, wk.weight)).store := by
+          rw [e1, hev, e0]; exact hw.remove hg
+        rw [sp.store hw1, hev, e0]; rfl
+      · obtain ⟨ks, hks, hst⟩ := sp.storeSub
+        rcases e0' with ⟨_, hs1⟩ | ⟨_, hs1⟩
+        · refine ⟨wk.key :: ks, ?_, by rw [hst, hs1]; rfl⟩
+          intro k hk
+          simp only [List.mem_cons] at hk
+          rcases hk with rfl | hk
+          · simp
+          · simp only [List.map_cons, List.mem_cons]; exact Or.inr (hks k hk)
+        · refine ⟨ks, ?_, by rw [hst, hs1]⟩
+          intro k hk
+          simp only [List.map_cons, List.mem_cons]; exact Or.inr (hks k hk)
       · rw [sp.used, e1]
         simp only [List.map_cons, List.sum_cons]
         omega
@@ -2008,7 +2049,8 @@ theorem evo_sweepStep {s s' : State} {out : Out} (hs : sweepStep s = .ok (s', ou
   obtain ⟨ev, rfl⟩ := sweepStep_out hs
   obtain ⟨_, _, rfl⟩ := sweepStep_eq hs
   obtain ⟨evNew, _, sp⟩ := sweepEntries_spec (s.ttl.filter (due s)) s []
-  refine ⟨Nat.le_of_eq sp.nextId.symm, ?_, keyEvo_delKeys sp.store⟩
+  obtain ⟨ks, _, hks⟩ := sp.storeSub
+  refine ⟨Nat.le_of_eq sp.nextId.symm, ?_, keyEvo_delKeys hks⟩
   intro id hm
   left
   have : pendingIds (sweepEntries s (s.ttl.filter (due s)) []).1 = pendingIds s := pendingIds_congr sp.queue sp.pend
